@@ -19,7 +19,7 @@ func init() {
 		Level: "exploration",
 		Rule: "well-formed generated streams (≥3 packets) demultiplexed under read schedules (every fixed chunk size 1..400 in thorough / a boundary set in quick, random sizes, one cut at every offset of the " +
 			"first 400 bytes, 1-byte reads, last bytes delivered together with io.EOF, reads returning (0, nil)) plus a read-only reader handed to a second Demuxer right after a call that returned a PAT/PMT, x reader kinds {seekable, bufio, plain} x {explicit, auto-detected} x packet sizes 188+k, each compared with the baseline (explicit 188, seekable, full reads); " +
-			"distinct = hash of (stream, configuration); non-trivial = the tap observed at least one short read or a non-baseline reader/size configuration",
+			"plus streams of 0..187 bytes (the beginning of one packet) under every reader kind and both size modes: nothing delivered, ErrNoMorePackets itself from the first call on (stage short); distinct = hash of (stream, configuration); non-trivial = the tap observed at least one short read or a non-baseline reader/size configuration",
 		Assumptions: []string{"auto-detection inputs respect the detector's documented assumption (\"bounded by 2 sync bytes\"): first byte is a sync byte and no 0x47 among the bytes 188..188+k-1 of the first packet / its k extra bytes — no detector that looks at a finite window can tell such a byte from the next sync byte",
 			"bufio.Reader of any buffer size (16 bytes and up), with explicit and with detected packet size", "plain reader + auto-detection: the peeked packets are consumed by design, so the packet list must be a suffix of the baseline and independent of chunking"},
 		Shards: 32,
@@ -34,6 +34,7 @@ func init() {
 			need(m, &out, "zero_read_runs", 500)
 			need(m, &out, "shared_reader_runs", 150)
 			need(m, &out, "small_bufio_runs", 400)
+			need(m, &out, "short_stream_runs", 2500)
 			needSet(m, &out, "reader_x_size", 6)
 			return out
 		},
@@ -51,6 +52,10 @@ func itemsEqual(a, b []Item) string {
 	for i := range a {
 		if (a[i].Err != nil) != (b[i].Err != nil) {
 			return fmt.Sprintf("result %d: error %v vs %v", i, a[i].Err, b[i].Err)
+		}
+		// which error comes back is part of the result: the same stream under the other configuration fails in the same words
+		if a[i].Err != nil && a[i].Err.Error() != b[i].Err.Error() {
+			return fmt.Sprintf("result %d: error %q vs %q", i, a[i].Err.Error(), b[i].Err.Error())
 		}
 		if d := mon.Diff(a[i].Data, b[i].Data, nil); d != "" {
 			return fmt.Sprintf("result %d: %s", i, d)
@@ -438,6 +443,47 @@ func runC08(c *mon.Ctx) {
 		}
 		if i < 2 {
 			c.Sample("streams", map[string]any{"packets": len(s.Packets), "head": mon.Hex(s.Bytes, 32), "configurations": "fixed 1..400 | random | cut@offset | reader kinds x explicit/auto | 188+k"})
+		}
+	}
+	// streams that are nothing but the beginning of a packet (0..187 bytes): the end of the stream under every reader kind, with a
+	// given packet size and with a detected one alike - no packet, no data, and the error of the first call and of every later one is
+	// ErrNoMorePackets itself (what a caller compares with), not something that wraps it
+	for n := int64(0); n < 188; n++ {
+		if !c.Mine("short", n) {
+			continue
+		}
+		r := c.Rng("short", n)
+		in := make([]byte, n)
+		for k := range in {
+			in[k] = byte(r.UintN(256))
+		}
+		if n > 0 {
+			in[0] = 0x47
+		}
+		for _, rd := range []string{"seek", "bufio", "bufio16", "plain"} {
+			for _, ps := range []int{188, 0} {
+				for _, api := range []string{"packet", "data"} {
+					cfg := DemuxCfg{PacketSize: ps, Reader: rd, API: api, ExtraAfterEOF: 2}
+					if rd == "bufio16" {
+						cfg.Reader, cfg.BufioSize = "bufio", 16
+					}
+					run := RunDemux(in, cfg)
+					c.Count("short_stream_runs")
+					c.Case(mon.HashStr("c08short", fmt.Sprint(n), rd, fmt.Sprint(ps), api), true)
+					cls := fmt.Sprintf("%s/%s/%s", rd, sizeCls(ps), api)
+					data := map[string]any{"config": cfg.String(), "stream": mon.Hex(in, 200)}
+					switch {
+					case run.Panic != "":
+						c.Violate("C08/short/panic:"+cls, "short", n, run.Panic, data)
+					case run.WrappedEOF != "":
+						c.Violate("C08/short/end-of-stream-not-the-sentinel:"+cls, "short", n, run.WrappedEOF, data)
+					case len(run.Items) > 0 || run.EOFAt != 0:
+						c.Violate("C08/short/differs-from-explicit-size:"+cls, "short", n, fmt.Sprintf("%d items before the end of the stream (first error %v), end at call %d: a stream of %d bytes holds no packet", len(run.Items), run.Errors(), run.EOFAt, n), data)
+					case run.PostEOFBad != "":
+						c.Violate("C08/short/result-after-end-of-stream:"+cls, "short", n, run.PostEOFBad, data)
+					}
+				}
+			}
 		}
 	}
 	_ = astits.MpegTsPacketSize
